@@ -381,8 +381,259 @@ class _TypeCall(ast.NodeTransformer):
         return node
 
 
+CANON_MODULES = {"numpy": "np", "math": "math"}
+
+
+class _ImportCanon(ast.NodeTransformer):
+    """`from numpy import dot` / `from math import tau` / `import numpy as N`: the names are rewritten to the qualified
+    spelling the engines know (np.dot, math.tau), wherever they are not shadowed by a parameter or a local assignment"""
+
+    def __init__(self, tree):
+        self.direct, self.modalias = {}, {}
+        for st in tree.body:
+            if isinstance(st, ast.ImportFrom) and st.module in CANON_MODULES and st.level == 0:
+                for a in st.names:
+                    if a.name != "*":
+                        self.direct[a.asname or a.name] = (CANON_MODULES[st.module], a.name)
+            if isinstance(st, ast.Import):
+                for a in st.names:
+                    if a.name in CANON_MODULES and (a.asname or a.name) != CANON_MODULES[a.name]:
+                        self.modalias[a.asname or a.name] = CANON_MODULES[a.name]
+        self.fractions = {a.asname or a.name for st in tree.body if isinstance(st, ast.Import) for a in st.names
+                          if a.name == "fractions"}
+        self.shadow = [set()]
+
+    def _locals(self, fn):
+        out = {a.arg for a in fn.args.posonlyargs + fn.args.args + fn.args.kwonlyargs}
+        if fn.args.vararg:
+            out.add(fn.args.vararg.arg)
+        if fn.args.kwarg:
+            out.add(fn.args.kwarg.arg)
+        for n in ast.walk(fn):
+            if isinstance(n, ast.Name) and isinstance(n.ctx, ast.Store):
+                out.add(n.id)
+        return out
+
+    def visit_FunctionDef(self, node):
+        self.shadow.append(self._locals(node))
+        self.generic_visit(node)
+        self.shadow.pop()
+        return node
+
+    visit_AsyncFunctionDef = visit_FunctionDef
+
+    def visit_Attribute(self, node):
+        self.generic_visit(node)
+        if isinstance(node.value, ast.Name) and node.value.id in self.fractions and node.attr == "Fraction" \
+                and not any(node.value.id in sh for sh in self.shadow):
+            return ast.copy_location(ast.Name(id="Fraction", ctx=node.ctx), node)
+        return node
+
+    def visit_Name(self, node):
+        if isinstance(node.ctx, ast.Load) and not any(node.id in sh for sh in self.shadow):
+            if node.id in self.direct:
+                mod, name = self.direct[node.id]
+                return ast.copy_location(ast.Attribute(value=ast.Name(id=mod, ctx=ast.Load()), attr=name, ctx=ast.Load()), node)
+            if node.id in self.modalias:
+                return ast.copy_location(ast.Name(id=self.modalias[node.id], ctx=ast.Load()), node)
+        return node
+
+
+class _AliasInline(ast.NodeTransformer):
+    """aliases of methods are read through: a module-level `name = Class.method`, and inside a function
+    `name = obj.method` (assigned once, `obj` a parameter or a local assigned once, `name` only ever called) -- the
+    calls `name(...)` become `Class.method(...)` / `obj.method(...)`, the alias assignment stays"""
+
+    def __init__(self, tree):
+        classes = {st.name for st in tree.body if isinstance(st, ast.ClassDef)}
+        for st in tree.body:
+            if isinstance(st, ast.ImportFrom):
+                classes |= {a.asname or a.name for a in st.names if (a.asname or a.name)[:1].isupper()}
+        self.module_alias = {}
+        for st in tree.body:
+            if isinstance(st, ast.Assign) and len(st.targets) == 1 and isinstance(st.targets[0], ast.Name) \
+                    and isinstance(st.value, ast.Attribute) and isinstance(st.value.value, ast.Name) and st.value.value.id in classes:
+                self.module_alias[st.targets[0].id] = st.value
+        self.local = [{}]
+        self.values = [{}]
+        self.classes = classes
+
+    def visit_Name(self, node):
+        if isinstance(node.ctx, ast.Load) and node.id in self.values[-1]:
+            import copy as _copy
+            return ast.copy_location(_copy.deepcopy(self.values[-1][node.id]), node)
+        return node
+
+    @staticmethod
+    def _root(e):
+        while isinstance(e, ast.Attribute):
+            e = e.value
+        return e.id if isinstance(e, ast.Name) else None
+
+    def visit_FunctionDef(self, node):
+        import copy as _copy
+        stores = {}
+        for n in ast.walk(node):
+            if isinstance(n, ast.Name) and isinstance(n.ctx, (ast.Store, ast.Del)):
+                stores[n.id] = stores.get(n.id, 0) + 1
+            if isinstance(n, (ast.For, ast.comprehension)):
+                for t in ast.walk(n.target):
+                    if isinstance(t, ast.Name):
+                        stores[t.id] = stores.get(t.id, 0) + 1     # rebound at every iteration
+        params = {a.arg for a in node.args.posonlyargs + node.args.args + node.args.kwonlyargs}
+        if node.args.vararg:
+            params.add(node.args.vararg.arg)
+        if node.args.kwarg:
+            params.add(node.args.kwarg.arg)
+        # candidate aliases: every assignment to the name is `name = <same attribute expression>`
+        assigns = {}
+        for n in ast.walk(node):
+            if isinstance(n, ast.Assign) and len(n.targets) == 1 and isinstance(n.targets[0], ast.Name):
+                assigns.setdefault(n.targets[0].id, []).append(n)
+        cand = {}
+        for name, sts in assigns.items():
+            if name in params or stores.get(name) != len(sts):
+                continue
+            if all(isinstance(st.value, ast.Name) and st.value.id not in stores and st.value.id not in params
+                   and st.value.id != name for st in sts) and len({st.value.id for st in sts}) == 1:
+                cand[name] = sts           # `fraction = Fraction`: another name for a global
+                continue
+            if not all(isinstance(st.value, ast.Attribute) for st in sts):
+                continue
+            if len({ast.dump(st.value) for st in sts}) != 1:
+                continue
+            root = self._root(sts[0].value)
+            if root is None:
+                continue
+            if stores.get(root, 0) > (0 if root in params else 1):
+                # the root may be rebound once everything is over: after the last call, outside every loop
+                last_call = max((getattr(n, "end_lineno", n.lineno) for n in ast.walk(node) if isinstance(n, ast.Call)
+                                 and isinstance(n.func, ast.Name) and n.func.id == name), default=None)
+                first_alias = min(st.lineno for st in sts)
+                inloop = set()
+                for lp in ast.walk(node):
+                    if isinstance(lp, (ast.For, ast.While, ast.AsyncFor)):
+                        inloop |= {id(x) for x in ast.walk(lp)}
+                ok = last_call is not None
+                early = 0
+                for n in ast.walk(node):
+                    if isinstance(n, ast.Name) and isinstance(n.ctx, (ast.Store, ast.Del)) and n.id == root:
+                        if n.lineno < first_alias and id(n) not in inloop:
+                            early += 1
+                        elif not (ok and n.lineno > last_call and id(n) not in inloop):
+                            ok = False
+                if not ok or early > (0 if root in params else 1):
+                    continue
+            cand[name] = sts
+        # every use is the function of a call, and every call follows an assignment in the same or an enclosing block
+        uses, calls = {}, {}
+        for n in ast.walk(node):
+            if isinstance(n, ast.Name) and isinstance(n.ctx, ast.Load) and n.id in cand:
+                uses[n.id] = uses.get(n.id, 0) + 1
+            if isinstance(n, ast.Call) and isinstance(n.func, ast.Name) and n.func.id in cand:
+                calls.setdefault(n.func.id, []).append(n)
+        covered = {k: set() for k in cand}
+
+        def blocks(st):
+            for f in ("body", "orelse", "finalbody"):
+                b = getattr(st, f, None)
+                if isinstance(b, list) and b and isinstance(b[0], ast.stmt):
+                    yield b
+            for h in getattr(st, "handlers", []):
+                yield h.body
+
+        def scan(block):
+            for i, st in enumerate(block):
+                if isinstance(st, ast.Assign) and len(st.targets) == 1 and isinstance(st.targets[0], ast.Name) \
+                        and st.targets[0].id in cand:
+                    for later in block[i + 1:]:
+                        for n in ast.walk(later):
+                            if isinstance(n, ast.Call) and isinstance(n.func, ast.Name) and n.func.id == st.targets[0].id:
+                                covered[st.targets[0].id].add(id(n))
+                if not isinstance(st, (ast.FunctionDef, ast.AsyncFunctionDef, ast.ClassDef)):
+                    for b in blocks(st):
+                        scan(b)
+        scan(node.body)
+        local = {}
+        for k, sts in cand.items():
+            cs = calls.get(k, [])
+            if cs and uses.get(k, 0) == len(cs) and all(id(c) in covered[k] for c in cs):
+                local[k] = sts[0].value
+        # `name = Class.attr` (a class of this module, assigned once, the attribute never rebound here): every read of
+        # `name` is a read of `Class.attr`
+        values = {}
+        rebound = {ast.dump(t) for n in ast.walk(node) if isinstance(n, (ast.Assign, ast.AugAssign, ast.AnnAssign))
+                   for t in (n.targets if isinstance(n, ast.Assign) else [n.target]) if isinstance(t, ast.Attribute)}
+        for k, sts in cand.items():
+            v = sts[0].value
+            if k not in local and len(sts) == 1 and isinstance(v, ast.Attribute) and isinstance(v.value, ast.Name) and v.value.id in self.classes \
+                    and v.value.id not in stores and v.value.id not in params and sts[0] in node.body:
+                probe = ast.Attribute(value=v.value, attr=v.attr, ctx=ast.Store())
+                if ast.dump(probe) not in rebound:
+                    values[k] = v
+        shadowed = set(stores) | params
+        self.local.append((local, shadowed))
+        self.values.append(values)
+        self.generic_visit(node)
+        self.values.pop()
+        self.local.pop()
+        if values:
+            local = dict(local)
+            local.update(values)
+        if local:                          # the alias assignments are now dead
+            drop = {id(st) for k in local for st in cand[k]}
+
+            class _Drop(ast.NodeTransformer):
+                def visit_Assign(s, st):
+                    return ast.copy_location(ast.Pass(), st) if id(st) in drop else st
+            node = _Drop().visit(node)
+        return node
+
+    visit_AsyncFunctionDef = visit_FunctionDef
+
+    def visit_Call(self, node):
+        self.generic_visit(node)
+        if isinstance(node.func, ast.Name):
+            import copy as _copy
+            for frame in reversed(self.local[1:]):
+                local, shadowed = frame
+                if node.func.id in local:
+                    node.func = ast.copy_location(_copy.deepcopy(local[node.func.id]), node.func)
+                    return node
+                if node.func.id in shadowed:
+                    return node
+            if node.func.id in self.module_alias:
+                node.func = ast.copy_location(_copy.deepcopy(self.module_alias[node.func.id]), node.func)
+        return node
+
+
+class _AssertForm(ast.NodeTransformer):
+    """`if not cond: raise AssertionError(msg)` is the statement `assert cond, msg` written out"""
+
+    def visit_If(self, node):
+        self.generic_visit(node)
+        if not node.orelse and len(node.body) == 1 and isinstance(node.body[0], ast.Raise) and node.body[0].cause is None:
+            exc = node.body[0].exc
+            name = exc.func if isinstance(exc, ast.Call) else exc
+            if isinstance(name, ast.Name) and name.id == "AssertionError" \
+                    and (not isinstance(exc, ast.Call) or (len(exc.args) <= 1 and not exc.keywords)):
+                test = node.test
+                if isinstance(test, ast.UnaryOp) and isinstance(test.op, ast.Not):
+                    test = test.operand
+                else:
+                    test = ast.UnaryOp(op=ast.Not(), operand=test)
+                msg = exc.args[0] if isinstance(exc, ast.Call) and exc.args else None
+                return ast.copy_location(ast.Assert(test=test, msg=msg), node)
+        return node
+
+
 def desugar_match(tree):
-    """normal forms applied once, right after parsing: simple `match` statements -> if chains, type(x) -> x.__class__"""
+    """normal forms applied once, right after parsing, so that every engine sees spellings it knows: qualified names for
+    `from numpy / math import ..`, method aliases read through, simple `match` statements -> if chains, type(x) ->
+    x.__class__"""
+    tree = _ImportCanon(tree).visit(tree)
+    tree = _AliasInline(tree).visit(tree)
     tree = _MatchDesugar().visit(tree)
     tree = _TypeCall().visit(tree)
+    tree = _AssertForm().visit(tree)
     return ast.fix_missing_locations(tree)
